@@ -2,6 +2,8 @@
 # patches/try-on-copy.sh <Cxx> <copy-of-/repo> [tier]
 # Like /verif/tools/try_mutation.sh, but for THIS branch: runs ./check Cxx against a copy of cucapra/patronus in a scratch
 # worktree of /verif at the branch's HEAD (harness path dependencies redirected to the copy). Never touches /repo.
+# Optional: READER=Fix2 and/or WRITER=writer_fix in the environment set the driver constants code_variant / writer_variant
+# of ocaml/driver/c08.ml in the scratch worktree (to check prepared patches that are not applied in /repo yet).
 set -e
 P=$1; R=$2; T=${3:-quick}
 V=$(cd "$(dirname "$0")/.." && pwd)
@@ -12,6 +14,8 @@ git checkout -q wt-BTOR-scratch 2>/dev/null || true
 git reset -q --hard "$(git -C "$V" rev-parse HEAD)"
 sed -i "s#/repo/patronus#$R/patronus#g" harness/Cargo.toml
 cp -f "$R/Cargo.lock" harness/Cargo.lock 2>/dev/null || cp -f /repo/Cargo.lock harness/Cargo.lock
+[ -z "$READER" ] || sed -i "s/^let code_variant = .*/let code_variant = $READER/" ocaml/driver/c08.ml
+[ -z "$WRITER" ] || sed -i "s/^let writer_variant = .*/let writer_variant = $WRITER/" ocaml/driver/c08.ml
 python3 tools/gen_coqproject.py && (cd coq && timeout 3000 make -j8 theories/Props/$P.vo >/dev/null 2>&1 || true)
 ./check "$P" "$T" > "/tmp/btor-try-$P.log" 2>&1 || true
 grep -v "^KNOWN-FINDING" "/tmp/btor-try-$P.log" | grep -v "WARNING conda" | tail -3
